@@ -294,4 +294,14 @@ REGISTRY = {
         'sections': [{'name': 'failures', 'run': simple_sec('sec_graphs', 'failures_section')}],
         'rule': 'every fault position x exception class x trailing/plain on all small trees of instrumented objects',
     },
+    'C12': {
+        'theorems': ['PP.C12.machine_quadratic', 'PP.C12.fits_linear', 'PP.C12.fits_smart_linear', 'PP.C12.fitsFastC_fst', 'PP.C12.fitsSmartC_fst',
+                     'PP.C12.build_linear_partial', 'PP.C12.commented_dict_exponential', 'PP.C12.string_pieces_linear',
+                     'PP.Doc.size_normalize', 'PP.C02.budget_positive'],
+        'modules': ['PP.Model.Cost', 'PP.Props.C12'],
+        'leanchecker': True,
+        'sections': [{'name': 'step-counts', 'run': simple_sec('sec_cost', 'cost_section')}],
+        'rule': 'LINE events inside the package on parametrised families at n, 2n, 4n(, 8n): doubling ratios and steps <= K * model cost',
+        'assumptions': ['partial: a theorem cannot see CPython\'s step count; interpreter-level costs not proportional to model steps (string concatenation, list copies, repr of huge ints) are outside the model'],
+    },
 }
